@@ -189,6 +189,10 @@ struct qb_ipcs_connection {
 	int32_t fc_enabled;
 	int32_t poll_events;
 	int32_t outstanding_notifiers;
+	/* connection_closed() returned non-zero and a job will call it again */
+	int32_t closed_retry_scheduled;
+	/* connection_closed() returned zero, the initial reference is gone */
+	int32_t closed_done;
 	char description[CONNECTION_DESCRIPTION];
 	struct qb_ipcs_connection_stats_2 stats;
 };
